@@ -700,7 +700,7 @@ func Run(r *mc.Run) {
 	b.fill()
 	r.Rule = "every program of the grammar is enumerated: bodies of K0..K2 = <= max_actions_per_body actions + terminator, total number of actions <= max_actions_total; " +
 		"leaf actions SSTORE(slot0|slot1, tag+txno) / SSTORE(0,0) / LOG1 / CALL(value) to an externally owned account or to an address that does not exist / CREATE and CREATE2 with init code {ok, reverting, oversize, invalid, storing+logging then returning a 300-byte runtime code (fails AT CODE DEPOSIT when less than 60000 gas is left)} (each init code first writes storage); " +
-		"entering actions CALL(value 0|1), CALLCODE, DELEGATECALL, STATICCALL to a higher-numbered contract, with gas classes {all, fixed mid-size allotment 22000, creation-sized allotment 90000 = pays CREATE and the init code but not the 300-byte deposit[, 0]}; " +
+		"entering actions CALL(value 0|1), CALLCODE, DELEGATECALL, STATICCALL to a higher-numbered contract, with gas classes {all, fixed mid-size allotment 22000, creation-sized allotment 90000 = pays CREATE and the init code but not the 300-byte deposit (enumerated on calls beneath which a CREATE/CREATE2 action exists)[, 0]}; " +
 		"terminators STOP/RETURN/REVERT/INVALID/out-of-gas/SELFDESTRUCT(self)/SELFDESTRUCT(other); contracts that are not reachable keep the trivial body so no program is visited twice; programs up to max_actions_total_for_create_entry actions are also entered as a creation transaction (K0's body as init code; with the further terminators RETURN(300-byte code) under an unlimited and a 60000 gas limit (deposit not payable) and RETURN(oversize)). " +
 		"Boundary probe: for every program of <= boundary_probe_max_actions_total actions whose entry body does not end in REVERT and that has a creation frame depositing the 300-byte code (programs of <= 1 action: any code, and transaction 2 as well), the gas limit of transaction 1 is driven to the least limit at which the first such frame still pays its deposit (= it has exactly the deposit left), and every limit from boundary_probe_window/4 below to boundary_probe_window above it is run; all probing runs are judged like any program. " +
 		"Each program is compiled to byte code and run by the real EVM (core/vm/runtime Call/Create, a vm.Tracer attached) as transaction 1 and again as transaction 2 after Finalise on the same StateDB reopened from a committed base. Besides the reference comparison, every frame's gas hand-back is checked against the observed frame: exceptional halt, unpayable deposit and oversize code hand back nothing, REVERT and success hand back exactly what was left (minus 200 per byte of deposited code). distinct = distinct (outcome of both transactions, final reference world) pairs"
@@ -737,6 +737,9 @@ func Run(r *mc.Run) {
 		b.forEachCompletion(outer[i], l1, l2, func(p *Program, total int) {
 			visits++
 			if visits&127 == 1 && r.Expired() {
+				return
+			}
+			if !depClassUseful(p) {
 				return
 			}
 			run := func(q *Program) {
@@ -786,6 +789,31 @@ func Run(r *mc.Run) {
 	})
 	r.SetExtra("programs", atomic.LoadInt64(&programs))
 	r.SetExtra("transactions_executed", 2*atomic.LoadInt64(&programs))
+}
+
+// depClassUseful: the creation-sized gas class (gDep) is enumerated only on
+// calls beneath which a CREATE/CREATE2 action exists (everywhere else it
+// behaves like one of the other two classes).
+func depClassUseful(p *Program) bool {
+	var creates [3]bool
+	for j := 2; j >= 0; j-- {
+		for _, a := range p.Bodies[j].Acts {
+			switch {
+			case a.K == ACreate || a.K == ACreate2:
+				creates[j] = true
+			case a.K >= ACall && a.K <= AStatic && a.Target <= tgK2 && creates[a.Target]:
+				creates[j] = true
+			}
+		}
+	}
+	for _, b := range p.Bodies {
+		for _, a := range b.Acts {
+			if a.K >= ACall && a.K <= AStatic && a.Target <= tgK2 && a.Gas == gDep && !creates[a.Target] {
+				return false
+			}
+		}
+	}
+	return true
 }
 
 // probe drives the first depositing creation frame of transaction 1, then of
